@@ -113,7 +113,7 @@ func runC16Fill(c *Ctx) {
 			}
 			el := ms.Type().Underlying().(*types.Slice).Elem()
 			en := namedName(el)
-			if !(geomTypeNames[en] || en == "Sequence") || pkgOfType(el) != "geom" {
+			if !(geomTypeNames[en] || en == "Sequence" || en == "XY" || en == "Coordinates" || en == "line") || pkgOfType(el) != "geom" {
 				return
 			}
 			// element stores indexed by an induction variable
